@@ -8,6 +8,7 @@ import (
 	"github.com/Trendyol/go-dcp/logger"
 	"github.com/Trendyol/go-dcp/membership"
 	"github.com/Trendyol/go-dcp/stream"
+	"github.com/asaskevich/EventBus"
 	"github.com/sirupsen/logrus"
 
 	"verifharness/gal"
@@ -200,8 +201,88 @@ func runC09(c *Ctx) {
 		}
 	}
 
+	// whole groups through the real discovery: every member of (N,T) calls Get(); the ranges must partition 0..N-1
+	groupCheck := func(n, t int) {
+		cs := make([][2]int, 0, t)
+		for k := 1; k <= t; k++ {
+			cfg := &config.Dcp{}
+			cfg.Dcp.Group.Membership.Type = membership.StaticMembershipType
+			cfg.Dcp.Group.Membership.MemberNumber = k
+			cfg.Dcp.Group.Membership.TotalMembers = t
+			got := stream.NewVBucketDiscovery(nil, cfg, n, nil).Get()
+			cs = append(cs, [2]int{int(got[0]), len(got)})
+		}
+		c.Count("group")
+		c.Eval(fmt.Sprintf("g%d/%d", n, t), t >= 2)
+		if m := monitorC09(n, t, cs); m != "" {
+			c.Violate("partition", fmt.Sprintf("members 1..%d of a %d-vBucket bucket through VBucketDiscovery.Get(): %s", t, n, m),
+				map[string]interface{}{"n": n, "t": t, "member_first_len": cs})
+		}
+	}
+	for _, n := range []int{64, 128, 1024} {
+		for t := 1; t <= n; t++ {
+			if c.Thorough() || n < 1024 || t <= 128 || t%7 == 0 {
+				groupCheck(n, t)
+			}
+		}
+	}
+	for i := 0; i < c.Pick(200, 3000); i++ {
+		n := 1 + c.Rng.Intn(1024)
+		groupCheck(n, 1+c.Rng.Intn(n))
+	}
+
+	// one long-lived discovery object whose membership changes (dynamic membership over the real bus):
+	// the range must depend on the current (N, T, member) only
+	var seqc []gal.Term
+	var seqR []string
+	for i := 0; i < c.Pick(60, 600); i++ {
+		n := []int{64, 128, 1024, 1 + c.Rng.Intn(1024)}[c.Rng.Intn(4)]
+		bus := EventBus.New()
+		cfg := &config.Dcp{}
+		cfg.Dcp.Group.Membership.Type = membership.DynamicMembershipType
+		vd := stream.NewVBucketDiscovery(nil, cfg, n, bus)
+		steps := 2 + c.Rng.Intn(6)
+		t := 1 + c.Rng.Intn(minInt(n, 12))
+		var hist [][4]int
+		for st := 0; st < steps; st++ {
+			switch c.Rng.Intn(3) {
+			case 0: // group size changes
+				t = 1 + c.Rng.Intn(minInt(n, 12))
+			default: // same size, members renumbered
+			}
+			k := 1 + c.Rng.Intn(t)
+			bus.Publish(helpers.MembershipChangedBusEventName, &membership.Model{MemberNumber: k, TotalMembers: t})
+			bus.WaitAsync()
+			got := vd.Get()
+			first, last := int(got[0]), int(got[len(got)-1])
+			hist = append(hist, [4]int{t, k, first, last})
+			seqc = append(seqc, gal.Tuple(gal.N(uint64(n)), gal.N(uint64(t)), gal.N(uint64(k)), gal.Tuple(gal.N(uint64(first)), gal.N(uint64(last)))))
+			seqR = append(seqR, J(map[string]interface{}{"kind": "member-after-updates", "n": n, "history_t_k_first_last": append([][4]int{}, hist...)}))
+			// monitor: same as a fresh computation
+			cs, _, _ := chunkReal(n, t)
+			if len(cs) == t && (cs[k-1][0] != first || cs[k-1][0]+cs[k-1][1]-1 != last) {
+				c.Violate("impure", fmt.Sprintf("after membership updates %v a long-lived discovery returned range %d-%d for member %d/%d of %d vBuckets; a fresh computation gives %d-%d",
+					hist, first, last, k, t, n, cs[k-1][0], cs[k-1][0]+cs[k-1][1]-1), map[string]interface{}{"n": n, "history_t_k_first_last": hist})
+			}
+			c.Eval(fmt.Sprintf("s%d/%v", n, hist), true)
+			c.Count("member-after-update")
+		}
+		vd.Close()
+		if i == 0 {
+			c.Sample(map[string]interface{}{"n": n, "updates_t_k_first_last": hist})
+		}
+	}
+
 	im := []string{"Model.Chunk", "Corr.CorrC09"}
+	c.Emit("seq", "VBucketDiscovery.Get() after membership updates vs Chunk.member_range", im, "N * N * N * (N * N)", "chk_member", seqc, seqR, 500)
 	c.Emit("full", "ChunkSlice result chunk by chunk vs Chunk.chunks", im, "N * N * list (N * N)", "chk_full", full, fullR, 300)
 	c.Emit("rle", "run-length of chunk sizes vs Chunk.lens_rle", im, "N * N * list (N * N)", "chk_rle", rle, rleR, 700)
 	c.Emit("member", "VBucketDiscovery.Get() range vs Chunk.member_range", im, "N * N * N * (N * N)", "chk_member", mem, memR, 500)
+}
+
+func minInt(a, b int) int {
+	if a < b {
+		return a
+	}
+	return b
 }
